@@ -679,7 +679,7 @@ func TestC40(t *testing.T) {
 		return
 	}
 
-	perType := evid.N(2500, 60_000)
+	perType := evid.N(2500, 40_000)
 	execEvery := 7
 	for _, ty := range oracle.Types {
 		r := evid.Rand(int64(evid.Hash("C40", ty.Name) % 1000003))
